@@ -26,6 +26,7 @@ import json
 import multiprocessing
 import os
 import re
+import shutil
 import sys
 from html.entities import codepoint2name
 
@@ -92,7 +93,8 @@ def mc_cfg(maxlen):
     return ("CONSTANTS Alphabet <- FileAlphabet  GenNames <- FileGen  Charsets <- FileCharsets  MaxLen = %d\n"
             "SPECIFICATION MCSpec\n"
             "INVARIANT Neutral\nINVARIANT Invertible\nINVARIANT UrlSafe\nINVARIANT UrlInvertible\nINVARIANT EntityExact\n"
-            "INVARIANT TrimOnlyEnds\nINVARIANT DecodeStr\nINVARIANT HandlerTotal\nCHECK_DEADLOCK FALSE\n" % maxlen)
+            "INVARIANT TrimOnlyEnds\nINVARIANT DecodeStr\nINVARIANT HandlerTotal\nINVARIANT Homomorphic\nINVARIANT TrimComposes\n"
+            "CHECK_DEADLOCK FALSE\n" % maxlen)
 
 
 TRACE_CFG = ("CONSTANTS Alphabet <- FileAlphabet  GenNames <- FileGen  Charsets <- FileCharsets  MaxLen = 0\n"
@@ -284,13 +286,14 @@ def compare(s, exp, real):
     bad = []
 
     def one(site, e_names, r, cs=None):
-        e = text_of(e_names)
+        long_ = isinstance(e_names, str)         # a composed expectation for a long string: already text
+        e = e_names if long_ else text_of(e_names)
         if cs is not None:                       # encoded output: compare bytes
             eb = enc_text(e, cs)
             if r == eb:
                 return
             if isinstance(r, bytes):
-                if any(r == enc_text(v, cs) for v in bytes_repr_variants(s, e_names, cs)):
+                if not long_ and any(r == enc_text(v, cs) for v in bytes_repr_variants(s, e_names, cs)):
                     bad.append((site, "bytes-repr", {"charset": cs, "expected": e, "observed": repr(r)}))
                 else:
                     bad.append((site, "wrong-output", {"charset": cs, "expected": e, "observed": repr(r)}))
@@ -675,6 +678,10 @@ def check(run):
                              instantiate(exp["enc"]["ascii"], rep, other, "enc") != text_of(exp["enc"]["ascii"]),
                              "class shape instantiation does not distinguish members")
 
+    # ---------------------------------------------------------------- 3b. long strings (length / repetition)
+    if first_rows and not res.violated:
+        long_strings(run, first_rows, rrows, nproc, thorough)
+
     # ---------------------------------------------------------------- 4. V: random strings, judged by TLC
     for vround in range(5 if thorough else 1):
         nrand = 800
@@ -729,6 +736,112 @@ def check(run):
                     "outputs exported); each compared with the real filters and Template.render; every code point swept by class "
                     "against the shape TLC computed for its representative; random strings judged by Trace_Escape.tla.",
             "exhaustive": True}
+
+
+# --------------------------------------------------------------------------- long strings (length / repetition dimension)
+REPEATS = [15, 16, 17, 31, 32, 33, 64, 255, 256, 257, 1000, 4096, 70000]
+MIXED_PATTERNS = ["<&", "'\"", "&a;", "<a>", "&#3", "#x;", " \n", " a ", "\n<\n", "a b", "%+/", "-~a", "\u00e9\u20ac", "\u0416\u3042", "\U0001F600&",
+                  "<\u00e9'", "\u20ac\"\u00a0", "\u00a0a\u00a0", "&\u00e9;", "a\U0001F600\u0416", ">\u3042<", "amp", ";&#", "'\u20ac ", "\n\u00a0 "]
+
+
+def long_expectation(row, n):
+    """The expected outputs of (pattern repeated n times), composed from the outputs TLC exported for the pattern:
+    h, x, u, entity, the encodings are character-wise (invariant Homomorphic of Escape.tla); unescape and decode give
+    the input back; trim by invariant TrimComposes."""
+    p = text_of(row["s"])
+    exp = {f: text_of(row[f]) * n for f in ("h", "x", "u", "entity")}
+    exp["unescape"] = p * n
+    trim_p = text_of(row["trim"])
+    if trim_p == "":                              # the pattern is whitespace only
+        exp["trim"] = ""
+    elif n == 1:
+        exp["trim"] = trim_p
+    else:
+        exp["trim"] = text_of(row["ltrim"]) + p * (n - 2) + text_of(row["rtrim"])
+    exp["dec"] = {k: p * n for k in ("str", "bytes", "obj")}
+    exp["enc"] = {cs: text_of(row["enc"][cs]) * n for cs in CHARSETS}
+    return p * n, exp
+
+
+def _long_chunk(job):
+    """job: [(row, n)] -- compare the real filters / renders on the long string with the composed expectation."""
+    from . import c10_session
+    import tempfile
+    tm = make_templates()
+    tmp = tempfile.mkdtemp(prefix="c10long-", dir=job["scratch"])
+    os.makedirs(os.path.join(tmp, "src"))
+    with open(os.path.join(tmp, "src", "f.html"), "w") as f:
+        f.write("${x}")
+    c10_session.TMP["dir"] = tmp
+    out = []
+    ncmp = 0
+    for row, n, routes in job["items"]:
+        s, exp = long_expectation(row, n)
+        real = real_outputs(s, tm)
+        ncmp += 1
+        bads = compare(s, exp, real)
+        for route, cs in routes:                      # the long string through every render route
+            try:
+                r = c10_session.render_route(route, cs, "htmlentityreplace", s)
+            except Exception as ex:  # noqa -- an observation
+                r = "exc:" + type(ex).__name__
+            ncmp += 1
+            if r != enc_text(exp["enc"][cs], cs):
+                bads.append(("htmlentityreplace/route[%s]" % route, "wrong-output" if isinstance(r, bytes) else str(r)[:60],
+                             {"charset": cs, "expected": exp["enc"][cs][:80], "observed": repr(r)[:120]}))
+        for (site, mode, detail) in bads:
+            d = {k: (v[:80] + "...(%d chars)" % len(v) if isinstance(v, str) and len(v) > 100 else v) for k, v in detail.items()}
+            out.append({"site": site, "mode": mode, "pattern": text_of(row["s"]), "n": n, "detail": d})
+    shutil.rmtree(tmp, ignore_errors=True)
+    return ncmp, out
+
+
+def long_strings(run, rows, rrows, nproc, thorough):
+    """Patterns (every alphabet character, every class representative of the sweep, mixed patterns) repeated n times."""
+    from .c10_session import ROUTES
+    pats = [rows[(name_of(c),)] for c in QUICK_ALPHA]
+    pats += [rows[tuple(names_of(p))] for p in MIXED_PATTERNS if tuple(names_of(p)) in rows]
+    keys = sorted(k for k in rows if len(k) in (2, 3))
+    pats += [rows[run.rng.choice(keys)] for _ in range(30 if thorough else 8)]              # seeded further patterns
+    pats += [r for k, r in sorted(rrows.items()) if len(k) == 1 and k not in {(name_of(c),) for c in QUICK_ALPHA}]
+    if len(pats) < len(QUICK_ALPHA) + 20:
+        raise MachineryError("long strings: patterns missing from the export")
+    items = []
+    for pi, row in enumerate(pats):
+        for n in REPEATS:
+            if n == 70000 and not thorough and pi % 3:
+                continue                                # quick: the 2^16 neighbourhood for every third pattern
+            routes = []
+            if len(row["s"]) >= 2 and n in (17, 257, 4096) or (n == 70000 and pi % 9 == 0):
+                routes = [(r, CHARSETS[(pi + i) % 4]) for i, r in enumerate(ROUTES)]
+            items.append((row, n, routes))
+    items.sort(key=lambda it: -it[1] * len(it[0]["s"]))
+    nj = nproc * 3
+    jobs = [{"scratch": run.scratch, "items": items[i::nj]} for i in range(nj)]
+    ctxmp = multiprocessing.get_context("fork")
+    with ctxmp.Pool(nproc) as pool:
+        out = pool.map(_long_chunk, jobs, chunksize=1)
+    ncmp = sum(n for n, _ in out)
+    mism = [m for _, ms in out for m in ms]
+    run.traces += ncmp
+    run.extra["long_strings_compared"] = ncmp
+    run.extra["long_string_patterns"] = len(pats)
+    groups = {}
+    for m in mism:
+        groups.setdefault((m["site"], m["mode"]), []).append(m)
+    for (site, mode), ms in sorted(groups.items())[:15]:
+        ms.sort(key=lambda m: (m["n"], len(m["pattern"]), m["pattern"]))
+        ex = ms[0]
+        feat = ",".join(sorted({char_class(c) for c in ex["pattern"]}))
+        run.violation("%s:%s:repeated>=%d:%s" % (site, mode, ex["n"], feat),
+                      "%s on %r repeated %d times: expected %r, observed %r" % (site, ex["pattern"], ex["n"], ex["detail"].get("expected"), ex["detail"].get("observed")),
+                      {"source": "patterns repeated n times, expectation composed from TLC's export (Homomorphic, TrimComposes)",
+                       "example": ex, "count": len(ms), "failing_n": sorted({m["n"] for m in ms})})
+    # negative control: a composed expectation with one repetition missing must be rejected
+    row = pats[0]
+    s, exp = long_expectation(row, 17)
+    s2, exp2 = long_expectation(row, 16)
+    run.negative_control(bool(compare(s, exp2, real_outputs(s))), "long-string comparer accepted the expectation of a shorter string")
 
 
 # --------------------------------------------------------------------------- sessions (history dimension)
